@@ -44,6 +44,7 @@ FL = lambda n, *a: ("f", n) + a
 O = lambda n: ("o", n)
 V = ("v", "v", "A")
 VB = ("v", "vb", "B")
+V2 = ("v", "v2", "A")
 PX = ("p", "x")
 H = 2**53 + 1
 
@@ -139,6 +140,16 @@ PROFILES = [
         "ops": ["and", "or", "not", "exists", "forall"],
         "arities": (2,),
         "N": {"quick": 2, "thorough": 3},
+    },
+    {
+        # a free variable that is also bound by a nested quantifier: exists-elimination must
+        # not capture it (exists v.((v == v2) & forall v2. q(v)))
+        "name": "capture",
+        "leaves": [FL("q", V), FL("q", V2), ("eq", V, V2)],
+        "ops": ["and", "or", "exists", "forall"],
+        "arities": (2,),
+        "qvars": ((("v", "A"),), (("v2", "A"),)),
+        "N": {"quick": 3, "thorough": 3},
     },
     {
         "name": "ifun",
